@@ -31,6 +31,7 @@ var Families = map[string]func(t *testing.T, seed int64, steps int) *Cluster{
 	"restoreinflight": famRestoreInflight,
 	"prevoteterm": famPreVoteTerm,
 	"dupis":       famDupIS,
+	"leaseiso":    famLeaseIso,
 }
 
 // famSnapMember: snapshots racing with membership changes and a slow FSM, then restarts from the snapshot.
